@@ -9,7 +9,7 @@ import ast
 from .ordertype import Unsupported
 from .pysrc import dotted
 
-SAFE = {"int": int, "float": float, "str": str, "bool": bool, "len": len, "isinstance": isinstance, "abs": abs, "repr": repr, "type": type}
+SAFE = {"print": lambda *a, **k: None, "list": list, "range": range, "sum": sum, "int": int, "float": float, "str": str, "bool": bool, "len": len, "isinstance": isinstance, "abs": abs, "repr": repr, "type": type}
 EXC = {"ValueError": ValueError, "TypeError": TypeError, "KeyError": KeyError, "AttributeError": AttributeError, "Exception": Exception,
        "OverflowError": OverflowError}
 TYPES = {"str": str, "int": int, "float": float, "bool": bool, "list": list, "tuple": tuple, "dict": dict}
@@ -73,6 +73,20 @@ class TinyExec:
                 raise _Return(self.ev(st.value, env, so) if st.value is not None else None)
             elif isinstance(st, ast.If):
                 self.run(st.body if self.ev(st.test, env, so) else st.orelse, env, so)
+            elif isinstance(st, ast.AugAssign):
+                cur = self.ev(st.target, env, so)
+                rhs = self.ev(st.value, env, so)
+                op = type(st.op)
+                new = cur + rhs if op is ast.Add else cur - rhs if op is ast.Sub else cur * rhs if op is ast.Mult else None
+                if new is None or not isinstance(st.target, ast.Name):
+                    raise Unsupported("augassign")
+                env[st.target.id] = new
+            elif isinstance(st, ast.For):
+                for item in self.ev(st.iter, env, so):
+                    if not isinstance(st.target, ast.Name):
+                        raise Unsupported("for target")
+                    env[st.target.id] = item
+                    self.run(st.body, env, so)
             elif isinstance(st, ast.Try):
                 try:
                     self.run(st.body, env, so)
@@ -115,6 +129,16 @@ class TinyExec:
             raise Unsupported("unbound %s" % n.id)
         if isinstance(n, ast.Tuple):
             return tuple(self.ev(e, env, so) for e in n.elts)
+        if isinstance(n, ast.JoinedStr):
+            return ""
+        if isinstance(n, ast.Attribute):
+            base = self.ev(n.value, env, so)
+            if hasattr(base, n.attr) and not callable(getattr(base, n.attr)):
+                return getattr(base, n.attr)
+            raise Unsupported("attribute %s" % n.attr)
+        if isinstance(n, ast.BinOp) and isinstance(n.op, (ast.Add, ast.Sub, ast.Mult)):
+            a_, b_ = self.ev(n.left, env, so), self.ev(n.right, env, so)
+            return a_ + b_ if isinstance(n.op, ast.Add) else a_ - b_ if isinstance(n.op, ast.Sub) else a_ * b_
         if isinstance(n, ast.UnaryOp) and isinstance(n.op, ast.Not):
             return not self.ev(n.operand, env, so)
         if isinstance(n, ast.UnaryOp) and isinstance(n.op, ast.USub):
